@@ -74,6 +74,12 @@ func c17(w *core.World, r *core.Report) {
 	r.Rule("R17.7", "the recovery scan of a cluster target lists every slot 0..16383", 2)
 	ruleAllSlots(w, r)
 
+	r.Rule("R17.8", "the set of live replication ids is complete before anything is collected: a source that cannot be asked ends the round", 1)
+	ruleLiveIdsComplete(w, r)
+
+	r.Rule("R17.9", "the mode marker of an existing namespace says what is there until the migration has run", 1)
+	ruleModeMarkerTruthful(w, r)
+
 	r.Rule("R17.6", "an index entry is deleted only under a test that it is not the entry just written (old id != new id)", 2)
 	for _, name := range []string{"pkg/redis/checkpoint.UpdateCheckpoint", "(*syncer.syncer).resolveBisyncCheckpointNameWithClient"} {
 		f := fn(w, r, name)
@@ -894,4 +900,144 @@ func indexRange(idx ssa.Value) (from int64, bound ssa.Value, ok bool) {
 		}
 	}
 	return 0, nil, false
+}
+
+// ---------------------------------------------------------------- R17.8 the set of live ids is complete before anything is collected
+
+// ruleLiveIdsComplete: the collector spares the newest checkpoint of every id a
+// source still reports. The set of reported ids is only as good as its
+// collection: a source whose ids could not be read must abandon the round, not
+// be skipped — otherwise its id counts as dead and its only checkpoint is
+// removed.
+func ruleLiveIdsComplete(w *core.World, r *core.Report) {
+	f := fn(w, r, "(*cmd.SyncerCmd).gcStaleCheckpoint")
+	if f == nil {
+		return
+	}
+	n := 0
+	for _, g := range reachableFuncs(f) {
+		for _, s := range core.SitesNamed(g, false, "pkg/redis.GetRunIds") {
+			if s.Instr.Parent() != g {
+				continue
+			}
+			n++
+			// from the failure edge of the call no collection is reachable in this function: it returns
+			bad := false
+			var pos token.Pos = s.Pos()
+			okEnum := core.EnumPathsN(g.Blocks[0], 0, 200000, 2, func(p *core.Path) {
+				if bad {
+					return
+				}
+				failedAt := -1
+				for i, in := range p.Instrs {
+					if in == s.Instr {
+						failedAt = i
+					}
+				}
+				if failedAt < 0 || !failedOn(p, s.Value()) {
+					return
+				}
+				// the path went on after the failure: it must end the round (return), not reach the next source
+				// or the collection
+				for _, in := range p.Instrs[failedAt+1:] {
+					if c, ok := in.(*ssa.Call); ok {
+						nm := core.ResolveCall(c).Name
+						if nm == "pkg/redis.GetRunIds" || strings.HasSuffix(nm, "DelStaleCheckpoint") || strings.Contains(nm, "gcStale") {
+							bad, pos = true, in.Pos()
+						}
+					}
+				}
+				if _, isRet := p.End.(*ssa.Return); !isRet {
+					bad = true
+				}
+			})
+			if !okEnum {
+				r.Undecided(shortName(core.FuncName(outermost(g)))+"/live-ids-complete", s.Pos(), "too many paths")
+				continue
+			}
+			r.Check(!bad, shortName(core.FuncName(outermost(g)))+"/live-ids-complete", pos, "after a source's replication ids could not be read the collection goes on: the ids of that source are missing from the live set, so its newest checkpoint is treated as stale and removed although the source still holds the id")
+		}
+	}
+	if n == 0 {
+		r.Fail("gcStaleCheckpoint/live-ids-complete", f.Pos(), "the live ids are not read from the sources")
+	}
+}
+
+// ---------------------------------------------------------------- R17.9 the mode marker of an existing namespace
+
+// ruleModeMarkerTruthful: the marker of a namespace says in which format its
+// recovery state is. Writing the *desired* mode into the marker of an existing
+// namespace is a format switch; it is allowed only where no state has to be
+// moved (nothing recoverable was found, or both modes use the same recovery
+// format). Everywhere else the marker must say what is there (the loaded or
+// inferred mode) until the migration has run: a stop right after a premature
+// marker makes the next start skip the migration and resume from stale state.
+func ruleModeMarkerTruthful(w *core.World, r *core.Report) {
+	f := fn(w, r, "(*syncer.syncer).resolveBisyncCheckpointNameWithClient")
+	if f == nil {
+		return
+	}
+	desired := paramOf(f, "BisyncMode", "desiredMode")
+	if desired == nil {
+		r.Unresolved("resolveBisyncCheckpointNameWithClient/desired-mode", "the desired-mode parameter was not found")
+		return
+	}
+	isKnown := func(v ssa.Value) bool {
+		e, ok := core.Unwrap(v).(*ssa.Extract)
+		if !ok || e.Index != 1 {
+			return false
+		}
+		c, ok := e.Tuple.(*ssa.Call)
+		if !ok {
+			return false
+		}
+		n := core.ResolveCall(c).Name
+		return strings.HasSuffix(n, "LoadBisyncNamespaceMode") || strings.HasSuffix(n, "inferBisyncNamespaceMode")
+	}
+	bad := ""
+	var pos token.Pos = f.Pos()
+	n := 0
+	okEnum := core.EnumPathsN(f.Blocks[0], 0, 400000, core.Unroll, func(p *core.Path) {
+		if bad != "" {
+			return
+		}
+		for _, s := range pathSites(p) {
+			if !strings.HasSuffix(s.Name, "checkpoint.SaveBisyncNamespaceMode") {
+				continue
+			}
+			a := s.Common().Args
+			if len(a) < 3 || core.Unwrap(p.Resolve(a[2])) != ssa.Value(desired) {
+				continue
+			}
+			n++
+			// a namespace that was just created
+			if core.DependsOn(a[1], func(v ssa.Value) bool {
+				c, ok := v.(*ssa.Call)
+				return ok && (strings.HasSuffix(core.ResolveCall(c).Name, "ResolveOrCreateBisyncCheckpointName") || strings.HasSuffix(core.ResolveCall(c).Name, "NewBisyncCheckpointName"))
+			}) {
+				continue
+			}
+			known, sameFamily := false, 0
+			for _, fct := range factsBefore(p, s.Instr) {
+				cond := p.Resolve(fct.Cond)
+				if fct.Val && isKnown(cond) {
+					known = true
+				}
+				if c, ok := core.Unwrap(cond).(*ssa.Call); ok && fct.Val {
+					nm := core.ResolveCall(c).Name
+					if strings.HasSuffix(nm, ").UsesLatest") || strings.HasSuffix(nm, ").UsesFrontier") {
+						sameFamily++
+					}
+				}
+			}
+			if known && sameFamily < 2 {
+				bad, pos = "the marker of an existing namespace whose format is known (loaded or inferred) is set to the desired mode before any migration, on a path that did not establish that both modes share one recovery format: a stop after this write makes the next start skip the migration and resume from stale state", s.Pos()
+			}
+		}
+	})
+	if !okEnum {
+		r.Undecided("resolveBisyncCheckpointNameWithClient/mode-marker", f.Pos(), "too many paths")
+		return
+	}
+	r.Check(bad == "" && n > 0, "resolveBisyncCheckpointNameWithClient/mode-marker", pos, "%s (writes of the desired mode seen on paths=%d)", bad, n)
 }
